@@ -292,7 +292,10 @@ def proof_step(prop: str, extra_targets: list[str] | None = None) -> dict:
     target = f"Props/{prop}.vo"
     # force re-check of the property file itself so Print Assumptions output is fresh
     vo = COQ / target
-    ok, out = coq_make((extra_targets or []) + [target])
+    extra_targets = list(extra_targets or [])
+    if (COQ / f"Run/{prop}.v").exists() and f"Run/{prop}.vo" not in extra_targets:
+        extra_targets.append(f"Run/{prop}.vo")
+    ok, out = coq_make(extra_targets + [target])
     if ok and "Closed under the global context" not in out and "Axioms:" not in out:
         # up to date: rebuild only the Props file to capture its output
         for ext in (".vo", ".glob", ".vok", ".vos"):
